@@ -499,6 +499,7 @@ def correspondence(ctx):
     from props import c04_wire
 
     r.merge(c04_wire.run(ctx))
+    r.merge(c04_wire.run_late(ctx))
     return r
 
 
@@ -507,10 +508,22 @@ def search(ctx, prior):
     from props import c04_wire
 
     r.merge(c04_wire.run(ctx, compare=False))
+    r.merge(c04_wire.run_late(ctx))
     return r
 
 
 def replay(ctx, doc):
+    if "late_plan" in doc["failure"]["input"]:
+        import latewire as LW
+        from props import c04_wire
+        from props import late_common as LC
+
+        plan = [tuple(x) for x in doc["failure"]["input"]["late_plan"]]
+        recs = LW.run_plan((c04_wire.users(), [None], c04_wire.W_TREE, plan, ["USER bob"]))
+        f = LC.c04_oracle(plan, recs, c04_wire.nearest) if not isinstance(recs, str) else {"what": recs}
+        print("plan:", plan)
+        print("oracle:", f)
+        return f is not None
     if "wire_commands" in doc["failure"]["input"]:
         from props import c04_wire
 
